@@ -93,27 +93,19 @@ Proof.
   - destruct (full c b); [discriminate|]. intros H. injection H as <-. unfold sp_push. rewrite app_length. cbn [length]. lia.
 Qed.
 
-(** the only vector an item changes is the one it moves into *)
-Lemma sp_item_moved c vid stw t sk out evs0 st1 lost0 d :
-  sp_item c vid stw t sk = Some (inl (out, evs0, st1, lost0)) -> sink_count sk d <> 0 ->
-  exists b ys', get_a d stw = Some b /\ st1 = set_a d (Some (with_xs b ys')) stw /\
-                length ys' = S (length (a_xs b)) /\ sink_count sk d = 1.
+(** one more value went into vector [d]: the allowance for the remaining moves *)
+Lemma adm_after_push c ww ww' d dv0 dv ys m :
+  get_vec d ww = Some dv0 -> get_vec d ww' = Some dv -> vlen dv = vlen dv0 + 1 -> vbk dv = vbk dv0 -> Rep c dv ys ->
+  adm_many c ww d (1 + m) -> adm_many c ww' d m.
 Proof.
-  intros Eit Hnz.
-  destruct sk as [| |dst|dst jj| | | | |]; try (cbn [sp_item] in Eit; discriminate);
-    cbn [sink_count] in Hnz |- *; try (exfalso; apply Hnz; reflexivity).
-  - destruct (Nat.eqb_spec dst d) as [->|]; [|exfalso; apply Hnz; reflexivity].
-    cbn [sp_item] in Eit. destruct (Nat.eqb d vid); [discriminate|].
-    destruct (get_a d stw) as [b|]; [|discriminate].
-    destruct (put_value c b None t) as [ys'|pp] eqn:Epv; [|discriminate].
-    injection Eit as <- <- <- <-. exists b, ys'. split; [reflexivity|]. split; [reflexivity|].
-    split; [apply (put_value_length c b None t ys' Epv)|reflexivity].
-  - destruct (Nat.eqb_spec dst d) as [->|]; [|exfalso; apply Hnz; reflexivity].
-    cbn [sp_item] in Eit. destruct (Nat.eqb d vid); [discriminate|].
-    destruct (get_a d stw) as [b|]; [|discriminate].
-    destruct (put_value c b (Some jj) t) as [ys'|pp] eqn:Epv; [|discriminate].
-    injection Eit as <- <- <- <-. exists b, ys'. split; [reflexivity|]. split; [reflexivity|].
-    split; [apply (put_value_length c b (Some jj) t ys' Epv)|reflexivity].
+  intros Hg0 Hg Hl Hb HRd Hadm dv' Hg'. rewrite Hg in Hg'. injection Hg' as <-.
+  destruct (Hadm dv0 Hg0) as [_ Hroom].
+  assert (Hr' : 1 <= m -> roomy c dv m).
+  { intros Hm. replace m with (1 + m - 1) by lia.
+    apply (roomy_pushed c dv0 dv (1 + m)); [apply Hroom; lia|lia|exact Hl|exact Hb]. }
+  split.
+  - intros Hm. apply (roomy_can_take c dv ys m HRd (Hr' Hm)).
+  - intros Hm. apply Hr'. lia.
 Qed.
 
 Section DrainMv.
@@ -129,21 +121,21 @@ Let hid := with_xs av (firstn s xs).
 (** worlds met while the iterator is alive: slot [vid] holds [vr] - which shows the prefix in front of the range -
     and the whole world represents the list state [stw] *)
 Record WalkM (ww : world) (stw : astate) (evs : list event) : Prop := {
-  wm_ok : step_ok c w ww stw evs 0;
+  wm_rep : WRep c ww stw;
+  wm_nx : unext (wuw w) <= unext (wuw ww);
+  wm_fuse : ufuse (wuw ww) = None;
+  wm_evs : uevents (wuw ww) = rev evs ++ uevents (wuw w);
   wm_vec : get_vec vid ww = Some vr;
   wm_a : get_a vid stw = Some hid
 }.
 
 Lemma walkm_base ww stw evs : WalkM ww stw evs -> Walking ww vid vv s ww [].
-Proof.
-  intros [Hok Hv Ha]. constructor; auto.
-  apply (so_fuse _ _ _ _ _ _ Hok).
-Qed.
+Proof. intros [HR Hn Hf He Hv Ha]. constructor; auto. Qed.
 
 Lemma walkm_after ww stw evs ww' evs' :
   WalkM ww stw evs -> Walking ww vid vv s ww' evs' -> WalkM ww' stw (evs ++ evs').
 Proof.
-  intros [[HR Hn Hf He] Hv Ha] [Hv' Ho' Hn' Hf' He']. constructor; [constructor| |]; auto.
+  intros [HR Hn Hf He Hv Ha] [Hv' Ho' Hn' Hf' He']. constructor; auto.
   - intros n. destruct (Nat.eq_dec n vid) as [->|Hne].
     + rewrite get_vec_slot in Hv, Hv'. pose proof (HR vid) as Hs. rewrite Hv in Hs. rewrite Hv'. exact Hs.
     + rewrite (Ho' n Hne). apply HR.
@@ -163,6 +155,21 @@ Proof.
   fold vr in E. rewrite (put_vec_id vid vr ww (wm_vec _ _ _ Hwk)) in E. exact E.
 Qed.
 
+(** the unwinding destroys the item: Element::drop *)
+Lemma item_drop_quiet ww stw evs idx :
+  WalkM ww stw evs -> (s <= idx)%nat -> (idx < e)%nat ->
+  exists ww', quiet (on_vec vid (elem_drop c (ptr_at c vr (N.of_nat idx)))) ww = Ok tt ww' /\
+              Walking ww vid vv s ww' (drop_ev c (nth idx xs 0)).
+Proof.
+  intros Hwk Hsi Hie.
+  destruct (item_sink_spec c ww vid av vv s e Erased HV Hse Hel ww [] idx KDrop [] (ret tt) (walkm_base _ _ _ Hwk) Hsi Hie eq_refl)
+    as (ww' & E1 & Hwk').
+  apply unwinding_ok_inv in E1. fold xs in E1, Hwk'. fold vr in E1.
+  cbn [item_sink] in E1. apply seq_ret_inv in E1. destruct E1 as [E1 _].
+  exists ww'. split; [|exact Hwk'].
+  apply quiet_none; [exact (wm_fuse _ _ _ Hwk)|exact E1|apply (wk_fuse _ _ _ _ _ _ Hwk')].
+Qed.
+
 Definition move_to (dst : nat) (di : option N) : sink :=
   match di with None => KPush dst | Some j => KIns dst j end.
 
@@ -173,17 +180,17 @@ Lemma item_move ww stw evs idx dst b di :
   let t := nth idx xs 0 in
   match put_value c b di t with
   | inl ys' => exists ww', item_sink c vid a (ptr_at c vr (N.of_nat idx)) (move_to dst di) ww = Ok [] ww' /\
-                 WalkM ww' (set_a dst (Some (with_xs b ys')) stw) evs /\
+                 WalkM ww' (set_a dst (Some (with_xs b ys')) stw) evs /\ unext (wuw ww') = unext (wuw ww) /\
                  (forall n, n <> dst -> get_vec n ww' = get_vec n ww)
   | inr p => exists ww', item_sink c vid a (ptr_at c vr (N.of_nat idx)) (move_to dst di) ww = Panic p ww' /\
-                 WalkM ww' stw (evs ++ drop_ev c t) /\
-                 (forall n, n <> vid -> get_vec n ww' = get_vec n ww)
+                 WalkM ww' stw (evs ++ drop_ev c t) /\ unext (wuw ww') = unext (wuw ww)
   end.
 Proof.
   intros Hwk Hsi Hie Hne Hgb Hadm t.
   pose proof (item_tok c av vv s e HV Hse Hel idx Hie) as Htok. fold xs in Htok. fold t in Htok.
   pose proof (walkm_read ww stw evs idx Hwk Hsi Hie) as Eread. fold t in Eread.
-  destruct Hwk as [[HR Hn Hf He] Hv Ha].
+  pose proof Hwk as Hwk_.
+  destruct Hwk as [HR Hn Hf He Hv Ha].
   destruct (wrep_get c ww stw dst b HR Hgb) as (dv & Hgd & HVd).
   pose proof (raw_action_spec c dv b (wuw ww) di t (match a with Typed => true | Erased => false end) Hwf HVd Htok (Hadm dv Hgd)) as Hspec.
   set (p0 := ptr_at c vr (N.of_nat idx)) in *.
@@ -203,16 +210,17 @@ Proof.
   destruct (put_value c b di t) as [ys'|p].
   - destruct Hspec as (dv' & u' & E & HVd' & Hsu).
     destruct (same_user_events _ _ Hsu) as (He' & Hn' & Hf').
-    exists (put_vec dst (Some dv') u' ww). split; [|split].
+    exists (put_vec dst (Some dv') u' ww). split; [|split; [|split]].
     + unfold bind at 1. unfold bind at 1. unfold on_unwind. rewrite offer_check_pass by exact Hty.
       rewrite Hsrc. rewrite (on_vec_ok dst _ ww dv tt dv' u' Hgd E). rewrite Hfin. reflexivity.
-    + constructor; [constructor| |].
+    + constructor.
       * apply wrep_put; [exact HR|exact HVd'].
       * rewrite wuw_put. rewrite Hn'. exact Hn.
       * rewrite wuw_put. congruence.
       * rewrite wuw_put. rewrite He'. exact He.
       * rewrite get_vec_put_other by (intros X; apply Hne; symmetry; exact X). exact Hv.
       * rewrite get_a_set_other by (intros X; apply Hne; symmetry; exact X). exact Ha.
+    + rewrite wuw_put. exact Hn'.
     + intros n Hnd. apply get_vec_put_other. exact Hnd.
   - (* refused: the value is destroyed, once *)
     assert (Ew3 : put_vec dst (Some dv) (wuw ww) ww = ww) by (apply put_vec_id; exact Hgd).
@@ -220,13 +228,7 @@ Proof.
               Walking ww vid vv s ww' (drop_ev c t)).
     { destruct a.
       - (* erased: Element::drop *)
-        assert (Hwk0 : Walking ww vid vv s ww []) by (constructor; auto).
-        destruct (item_sink_spec c ww vid av vv s e Erased HV Hse Hel ww [] idx KDrop [] (ret tt) Hwk0 Hsi Hie eq_refl)
-          as (ww' & E1 & Hwk').
-        apply unwinding_ok_inv in E1. fold xs in E1, Hwk'. fold t in Hwk'. fold vr in E1. fold p0 in E1.
-        cbn [item_sink] in E1. apply seq_ret_inv in E1. destruct E1 as [E1 _].
-        exists ww'. split; [|exact Hwk'].
-        apply quiet_none; [exact Hf|exact E1|apply (wk_fuse _ _ _ _ _ _ Hwk')].
+        exact (item_drop_quiet ww stw evs idx Hwk_ Hsi Hie).
       - destruct (quiet_drop_fresh c o t ww (or_introl eq_refl)) as (ww' & Eq & Hwv & Hn1 & Hf1 & He1).
         exists ww'. split; [exact Eq|]. constructor.
         + rewrite get_vec_slot, Hwv, <- get_vec_slot. exact Hv.
@@ -238,99 +240,263 @@ Proof.
     exists ww'. split; [|split].
     + unfold bind at 1. unfold bind at 1. unfold on_unwind. rewrite offer_check_pass by exact Hty.
       rewrite Hsrc. rewrite (on_vec_panic dst _ ww dv p dv (wuw ww) Hgd Hspec). rewrite Ew3, Eq. reflexivity.
-    + apply (walkm_after ww stw evs ww' (drop_ev c t)); [constructor; [constructor|..]; auto|exact Hwk'].
-    + intros n Hnv. apply (walkm_others ww ww' _ n Hwk' Hnv).
+    + apply (walkm_after ww stw evs ww' (drop_ev c t) Hwk_ Hwk').
+    + apply (wk_nx _ _ _ _ _ _ Hwk').
+Qed.
+
+(** [n] lazy clones of the item downcast: a new value each, destroyed by the caller *)
+Lemma item_lazy_downs ww stw evs idx :
+  WalkM ww stw evs -> (s <= idx)%nat -> (idx < e)%nat -> forall m u, ufuse u = None ->
+  lazy_downs c vid m (on_vec vid (read_ptr c (ptr_at c vr (N.of_nat idx)))) (put_vec vid (Some vr) u ww)
+  = Ok (next_ids c (unext u) m) (put_vec vid (Some vr) (lazy_uw c (nth idx xs 0) u m) ww).
+Proof.
+  intros Hwk Hsi Hie. set (t := nth idx xs 0).
+  pose proof (item_tok c av vv s e HV Hse Hel idx Hie) as Ht. fold xs in Ht. fold t in Ht.
+  assert (Hrd : forall u, read_ptr c (ptr_at c vr (N.of_nat idx)) (vr, u) = Ok (enc (szn c) t) (vr, u)).
+  { intros u. assert (Hp : ptr_at c vr (N.of_nat idx) = ptr_at c vv (N.of_nat idx)) by reflexivity.
+    rewrite Hp. unfold vr. rewrite read_ptr_with_len.
+    rewrite (read_elem c vv u xs idx (vi_rep _ _ _ HV)) by (unfold xs in *; lia). reflexivity. }
+  induction m as [|m IHm]; intros u Hfu.
+  - reflexivity.
+  - cbn [lazy_downs lazy_uw].
+    rewrite (bind_ok _ _ _ _ _ (on_vec_ok vid _ _ vr _ vr u (get_vec_put_same _ _ _ _) (Hrd u))).
+    rewrite put_put_same.
+    unfold lazy_down. unfold bind at 1. unfold bind at 1. unfold decode. rewrite (dec_enc _ _ Ht). unfold ret at 1.
+    rewrite (bind_ok _ _ _ _ _ (on_vec_ok vid _ _ vr tt vr u (get_vec_put_same _ _ _ _) (user_call_ok vr u Hfu))).
+    rewrite put_put_same.
+    match goal with |- match ?X (put_vec vid (Some vr) u ww) with _ => _ end = _ =>
+      assert (Estep : X (put_vec vid (Some vr) u ww) = Ok (tok c (unext u)) (put_vec vid (Some vr) (lazy_step c t u) ww))
+    end.
+    { unfold bind, freshw, emitw, harness_drop, ret, lazy_step, put_vec, tok. cbn [wuw wv ulog unext ufuse emit].
+      destruct (c_dg c); cbn [app]; reflexivity. }
+    rewrite Estep.
+    rewrite (bind_ok _ _ _ _ _ (IHm (lazy_step c t u) Hfu)). unfold ret.
+    assert (En : next_ids c (unext u) (S m) = tok c (unext u) :: next_ids c (unext u + 1) m).
+    { unfold next_ids. cbn [seq map]. rewrite N.add_0_r. f_equal.
+      rewrite <- seq_shift, map_map. apply map_ext. intros j. f_equal. lia. }
+    rewrite En. reflexivity.
 Qed.
 
 (** one item, whatever is done with it *)
-Lemma item_mv_spec ww stw evs idx sk :
-  WalkM ww stw evs -> (s <= idx)%nat -> (idx < e)%nat ->
+Lemma item_mv_spec idx : (s <= idx)%nat -> (idx < e)%nat -> forall sk ww stw evs,
+  WalkM ww stw evs ->
   (forall d, d <> vid -> adm_many c ww d (sink_count sk d)) ->
   let t := nth idx xs 0 in
-  match sp_item c vid stw t sk with
+  match sp_item c vid stw (unext (wuw ww)) t sk with
   | None => True
-  | Some (inl (out, evs0, st1, lost0)) =>
+  | Some (inl (out, evs0, st1, lost0, nx1)) =>
       exists ww', item_sink c vid a (ptr_at c vr (N.of_nat idx)) sk ww = Ok out ww' /\ WalkM ww' st1 (evs ++ evs0) /\
-        (forall d, sink_count sk d = 0 -> d <> vid -> get_vec d ww' = get_vec d ww)
-  | Some (inr (p, evs0)) =>
-      exists ww', item_sink c vid a (ptr_at c vr (N.of_nat idx)) sk ww = Panic p ww' /\ WalkM ww' stw (evs ++ evs0)
+        unext (wuw ww') = nx1 /\
+        (forall d m, d <> vid -> adm_many c ww d (sink_count sk d + m) -> adm_many c ww' d m)
+  | Some (inr (p, evs0, st1, nx1)) =>
+      exists ww', item_sink c vid a (ptr_at c vr (N.of_nat idx)) sk ww = Panic p ww' /\ WalkM ww' st1 (evs ++ evs0) /\
+        unext (wuw ww') = nx1
   end.
 Proof.
-  intros Hwk Hsi Hie Hadm t.
-  assert (Hsimple : forall out, match sk with KDrop | KSkip => Some [] | KDown => Some [t] | _ => None end = Some out ->
-            exists ww', item_sink c vid a (ptr_at c vr (N.of_nat idx)) sk ww = Ok out ww' /\ WalkM ww' stw (evs ++ drop_ev c t) /\
-              (forall d, sink_count sk d = 0 -> d <> vid -> get_vec d ww' = get_vec d ww)).
-  { intros out Hout.
+  intros Hsi Hie. set (t := nth idx xs 0). set (p0 := ptr_at c vr (N.of_nat idx)).
+  assert (Hsimple : forall sk ww stw evs out, WalkM ww stw evs ->
+            match sk with KDrop | KSkip => Some [] | KDown => Some [t] | _ => None end = Some out ->
+            exists ww', item_sink c vid a p0 sk ww = Ok out ww' /\ WalkM ww' stw (evs ++ drop_ev c t) /\
+              unext (wuw ww') = unext (wuw ww) /\
+              (forall d m, d <> vid -> adm_many c ww d (sink_count sk d + m) -> adm_many c ww' d m)).
+  { intros sk ww stw evs out Hwk Hout.
     destruct (item_sink_spec c ww vid av vv s e a HV Hse Hel ww [] idx sk out (ret tt) (walkm_base _ _ _ Hwk) Hsi Hie Hout)
       as (ww' & E1 & Hwk').
-    apply unwinding_ok_inv in E1. exists ww'. split; [exact E1|]. split.
+    apply unwinding_ok_inv in E1. exists ww'. split; [exact E1|]. split; [|split].
     - apply (walkm_after ww stw evs ww' _ Hwk Hwk').
-    - intros d _ Hd. apply (walkm_others ww ww' _ d Hwk' Hd). }
-  destruct sk as [| |dst|dst j| | | | |]; cbn [sp_item]; try exact I.
-  - apply (Hsimple [] eq_refl).
-  - apply (Hsimple [t] eq_refl).
-  - (* KPush *)
+    - apply (wk_nx _ _ _ _ _ _ Hwk').
+    - intros d m Hd Hm. apply (adm_many_same c ww ww' d m (walkm_others ww ww' _ d Hwk' Hd)).
+      apply (adm_many_le c ww d (sink_count sk d + m)); [lia|exact Hm]. }
+  assert (Hmove : forall dst di ww stw evs, WalkM ww stw evs ->
+            (forall d, d <> vid -> adm_many c ww d (sink_count (move_to dst di) d)) ->
+            match sp_item c vid stw (unext (wuw ww)) t (move_to dst di) with
+            | None => True
+            | Some (inl (out, evs0, st1, lost0, nx1)) =>
+                exists ww', item_sink c vid a p0 (move_to dst di) ww = Ok out ww' /\ WalkM ww' st1 (evs ++ evs0) /\
+                  unext (wuw ww') = nx1 /\
+                  (forall d m, d <> vid -> adm_many c ww d (sink_count (move_to dst di) d + m) -> adm_many c ww' d m)
+            | Some (inr (p, evs0, st1, nx1)) =>
+                exists ww', item_sink c vid a p0 (move_to dst di) ww = Panic p ww' /\ WalkM ww' st1 (evs ++ evs0) /\
+                  unext (wuw ww') = nx1
+            end).
+  { intros dst di ww stw evs Hwk Hadm.
+    assert (Hsp : sp_item c vid stw (unext (wuw ww)) t (move_to dst di)
+                  = if Nat.eqb dst vid then None
+                    else match get_a dst stw with
+                         | None => None
+                         | Some b => match put_value c b di t with
+                                     | inl ys' => Some (inl ([], [], set_a dst (Some (with_xs b ys')) stw, [], unext (wuw ww)))
+                                     | inr p => Some (inr (p, drop_ev c t, stw, unext (wuw ww)))
+                                     end
+                         end) by (destruct di; reflexivity).
+    rewrite Hsp. clear Hsp.
+    assert (Hcnt : forall d, sink_count (move_to dst di) d = if Nat.eqb dst d then 1 else 0) by (intros d; destruct di; reflexivity).
     destruct (Nat.eqb_spec dst vid) as [|Hne]; [exact I|].
     destruct (get_a dst stw) as [b|] eqn:Hgb; [|exact I].
     assert (Hav : adm_vec c ww dst).
-    { apply (adm_many_vec c ww dst 1); [lia|]. specialize (Hadm dst Hne). cbn [sink_count] in Hadm. rewrite Nat.eqb_refl in Hadm. exact Hadm. }
-    pose proof (item_move ww stw evs idx dst b None Hwk Hsi Hie Hne Hgb Hav) as H. cbv zeta in H. fold t in H.
-    destruct (put_value c b None t) as [ys'|p].
-    + destruct H as (ww' & E1 & Hwk' & Hoth). exists ww'. split; [exact E1|]. split; [rewrite app_nil_r; exact Hwk'|].
-      intros d Hd _. apply Hoth. intros ->. cbn [sink_count] in Hd. rewrite Nat.eqb_refl in Hd. discriminate.
-    + destruct H as (ww' & E1 & Hwk' & _). exists ww'. split; [exact E1|exact Hwk'].
-  - (* KIns *)
-    destruct (Nat.eqb_spec dst vid) as [|Hne]; [exact I|].
-    destruct (get_a dst stw) as [b|] eqn:Hgb; [|exact I].
-    assert (Hav : adm_vec c ww dst).
-    { apply (adm_many_vec c ww dst 1); [lia|]. specialize (Hadm dst Hne). cbn [sink_count] in Hadm. rewrite Nat.eqb_refl in Hadm. exact Hadm. }
-    pose proof (item_move ww stw evs idx dst b (Some j) Hwk Hsi Hie Hne Hgb Hav) as H. cbv zeta in H. fold t in H.
-    destruct (put_value c b (Some j) t) as [ys'|p].
-    + destruct H as (ww' & E1 & Hwk' & Hoth). exists ww'. split; [exact E1|]. split; [rewrite app_nil_r; exact Hwk'|].
-      intros d Hd _. apply Hoth. intros ->. cbn [sink_count] in Hd. rewrite Nat.eqb_refl in Hd. discriminate.
-    + destruct H as (ww' & E1 & Hwk' & _). exists ww'. split; [exact E1|exact Hwk'].
+    { apply (adm_many_vec c ww dst 1); [lia|]. specialize (Hadm dst Hne). rewrite Hcnt, Nat.eqb_refl in Hadm. exact Hadm. }
+    pose proof (item_move ww stw evs idx dst b di Hwk Hsi Hie Hne Hgb Hav) as H. cbv zeta in H. fold t in H. fold p0 in H.
+    destruct (put_value c b di t) as [ys'|p] eqn:Epv.
+    - destruct H as (ww' & E1 & Hwk' & Hnx' & Hoth). exists ww'. split; [exact E1|]. split; [rewrite app_nil_r; exact Hwk'|].
+      split; [exact Hnx'|].
+      intros d m Hd Hm. rewrite Hcnt in Hm. destruct (Nat.eqb_spec dst d) as [<-|Hdd].
+      + destruct (wrep_get c ww stw dst b (wm_rep _ _ _ Hwk) Hgb) as (dv0 & Hg0 & HV0).
+        destruct (wrep_get c ww' _ dst _ (wm_rep _ _ _ Hwk') (get_a_set_same dst _ stw)) as (dv2 & Hg2 & HV2).
+        pose proof (rep_len _ _ _ (vi_rep _ _ _ HV0)) as L0. pose proof (rep_len _ _ _ (vi_rep _ _ _ HV2)) as L2.
+        cbn [with_xs a_xs] in L2.
+        apply (adm_after_push c ww ww' dst dv0 dv2 ys' m Hg0 Hg2); [|rewrite (vi_bk _ _ _ HV2), (vi_bk _ _ _ HV0); reflexivity|exact (vi_rep _ _ _ HV2)|exact Hm].
+        rewrite L2, L0, (put_value_length c b di t ys' Epv). lia.
+      + apply (adm_many_same c ww ww' d m (Hoth d (fun X => Hdd (eq_sym X)))).
+        apply (adm_many_le c ww d (0 + m)); [lia|exact Hm].
+    - destruct H as (ww' & E1 & Hwk' & Hnx'). exists ww'. split; [exact E1|]. split; [exact Hwk'|exact Hnx']. }
+  induction sk as [| |dst|dst j| |sk' IH|n0 dst sk' IH|n0 sk' IH|]; intros ww stw evs Hwk Hadm; cbv zeta.
+  - (* KDrop *) cbn [sp_item]. destruct (Hsimple KDrop ww stw evs [] Hwk eq_refl) as (ww' & E & H1 & H2 & H3). exists ww'. auto.
+  - (* KDown *) cbn [sp_item]. destruct (Hsimple KDown ww stw evs [t] Hwk eq_refl) as (ww' & E & H1 & H2 & H3). exists ww'. auto.
+  - exact (Hmove dst None ww stw evs Hwk Hadm).
+  - exact (Hmove dst (Some j) ww stw evs Hwk Hadm).
   - (* KForget *)
-    exists ww. split; [reflexivity|]. split; [rewrite app_nil_r; exact Hwk|]. intros; reflexivity.
-  - apply (Hsimple [] eq_refl).
-Qed.
-
-Lemma adm_pat_tail ww ww' front sk rest :
-  adm_pat c ww vid ((front, sk) :: rest) ->
-  (forall d, sink_count sk d = 0 -> d <> vid -> get_vec d ww' = get_vec d ww) ->
-  (forall d dv, d <> vid -> sink_count sk d <> 0 -> get_vec d ww' = Some dv ->
-     exists dv0 ys, get_vec d ww = Some dv0 /\ vlen dv = vlen dv0 + 1 /\ vbk dv = vbk dv0 /\ Rep c dv ys /\ sink_count sk d = 1) ->
-  adm_pat c ww' vid rest.
-Proof.
-  intros Hadm Hsame Hmoved d Hd. specialize (Hadm d Hd). cbn [pat_count] in Hadm.
-  destruct (N.eq_dec (sink_count sk d) 0) as [Hz|Hnz].
-  - apply (adm_many_same c ww ww' d _ (Hsame d Hz Hd)). apply (adm_many_le c ww d (sink_count sk d + pat_count rest d)); [lia|exact Hadm].
-  - intros dv Hg. destruct (Hmoved d dv Hd Hnz Hg) as (dv0 & ys & Hg0 & Hl & Hb & HRd & H1).
-    rewrite H1 in Hadm. destruct (Hadm dv0 Hg0) as [_ Hroom].
-    set (m := 1 + pat_count rest d) in *.
-    assert (Hr' : 1 <= pat_count rest d -> roomy c dv (pat_count rest d)).
-    { intros Hm. replace (pat_count rest d) with (m - 1) by (unfold m; lia).
-      apply (roomy_pushed c dv0 dv m); [apply Hroom; unfold m; lia|unfold m; lia|exact Hl|exact Hb]. }
-    split.
-    + intros Hm. apply (roomy_can_take c dv ys (pat_count rest d) HRd (Hr' Hm)).
-    + intros Hm. apply Hr'. lia.
+    cbn [sp_item]. exists ww. split; [reflexivity|]. split; [rewrite app_nil_r; exact Hwk|]. split; [reflexivity|].
+    intros d m Hd Hm. apply (adm_many_le c ww d (sink_count KForget d + m)); [lia|exact Hm].
+  - (* KMut *) exact I.
+  - (* KLazy: lazy clones of the item go into another vector first *)
+    cbn [sp_item]. fold t.
+    destruct (Nat.eqb_spec dst vid) as [|Hne]; [exact I|].
+    destruct (get_a dst stw) as [ad|] eqn:Hgd; [|exact I].
+    pose proof (item_tok c av vv s e HV Hse Hel idx Hie) as Ht. fold xs in Ht. fold t in Ht.
+    destruct (wrep_get c ww stw dst ad (wm_rep _ _ _ Hwk) Hgd) as (vd & Hgvd & HVd).
+    assert (Hbytes : forall u, read_ptr c p0 (vr, u) = Ok (enc (szn c) t) (vr, u)).
+    { intros u. assert (Hp : p0 = ptr_at c vv (N.of_nat idx)) by reflexivity.
+      rewrite Hp. unfold vr. rewrite read_ptr_with_len.
+      rewrite (read_elem c vv u xs idx (vi_rep _ _ _ HV)) by (unfold xs in *; lia). reflexivity. }
+    assert (HI : LoopInv c vid dst vr ww ww ad vd).
+    { constructor; [exact (wm_vec _ _ _ Hwk)|exact Hgvd|exact HVd|intros; reflexivity|exact (wm_fuse _ _ _ Hwk)]. }
+    (* the loop, for any allowance [m] beyond the item's own moves *)
+    assert (Hloop : forall m, adm_many c ww dst (n0 + sink_count sk' dst + m) ->
+              exists W' vd',
+                LoopInv c vid dst vr ww W' (fst (fst (fst (sp_lazy_pushes c ad t (unext (wuw ww)) (N.to_nat n0))))) vd' /\
+                unext (wuw W') = snd (fst (sp_lazy_pushes c ad t (unext (wuw ww)) (N.to_nat n0))) /\
+                uevents (wuw W') = rev (snd (fst (fst (sp_lazy_pushes c ad t (unext (wuw ww)) (N.to_nat n0))))) ++ uevents (wuw ww) /\
+                (let pushed := snd (fst (sp_lazy_pushes c ad t (unext (wuw ww)) (N.to_nat n0))) - unext (wuw ww) in
+                 (1 <= n0 + sink_count sk' dst + m - pushed -> can_take c vd' 1) /\
+                 (2 <= n0 + sink_count sk' dst + m - pushed -> roomy c vd' (n0 + sink_count sk' dst + m - pushed))) /\
+                repeat_m (N.to_nat n0) (lazy_body c vid dst (read_ptr c p0)) ww
+                = (if snd (sp_lazy_pushes c ad t (unext (wuw ww)) (N.to_nat n0)) then Ok tt W' else Panic PCapacity W')).
+    { intros m Hm. destruct (Hm vd Hgvd) as [Hc1 Hc2].
+      exact (lazy_push_loop c vid dst vr t (read_ptr c p0) ww Hwf Hne Ht Hbytes (N.to_nat n0) ww ad vd _ HI Hc1 Hc2 ltac:(lia)). }
+    assert (Hm0 : adm_many c ww dst (n0 + sink_count sk' dst + 0)).
+    { pose proof (Hadm dst Hne) as H. cbn [sink_count] in H. rewrite Nat.eqb_refl in H. rewrite N.add_0_r. exact H. }
+    destruct (Hloop 0 Hm0) as (W' & vd' & HI' & Hnx' & Hev' & _ & Erun).
+    destruct (sp_lazy_pushes c ad t (unext (wuw ww)) (N.to_nat n0)) as [[[ad' evs1] nx'] ok] eqn:Esp.
+    cbn [fst snd] in *.
+    destruct (sp_lazy_pushes_nx c t _ _ _ _ _ _ _ Esp) as (Hge & _ & Hbk').
+    destruct HI' as [Hv' Hd' HVd' Ho' Hf'].
+    set (st1 := set_a dst (Some ad') stw) in *.
+    assert (Hwk1 : WalkM W' st1 (evs ++ evs1)).
+    { constructor.
+      - intros j. unfold st1, set_a. rewrite slot_set_nth.
+        destruct (Nat.eqb_spec j dst) as [->|Hj2].
+        + rewrite <- get_vec_slot, Hd'. exact HVd'.
+        + destruct (Nat.eq_dec j vid) as [->|Hj1].
+          * rewrite <- get_vec_slot, Hv'. pose proof (wm_rep _ _ _ Hwk vid) as Hs.
+            rewrite <- get_vec_slot, (wm_vec _ _ _ Hwk) in Hs. exact Hs.
+          * rewrite (Ho' j Hj1 Hj2). apply (wm_rep _ _ _ Hwk).
+      - rewrite Hnx'. pose proof (wm_nx _ _ _ Hwk). lia.
+      - exact Hf'.
+      - rewrite Hev', (wm_evs _ _ _ Hwk), rev_app_distr, app_assoc. reflexivity.
+      - exact Hv'.
+      - unfold st1. rewrite get_a_set_other by (intros X; apply Hne; symmetry; exact X). exact (wm_a _ _ _ Hwk). }
+    assert (Hbody : item_sink c vid a p0 (KLazy n0 dst sk') ww
+                    = (unwinding (repeat_m (N.to_nat n0) (lazy_body c vid dst (read_ptr c p0))) (on_vec vid (elem_drop c p0));;
+                       item_sink c vid a p0 sk') ww) by reflexivity.
+    rewrite Hbody. clear Hbody.
+    (* the allowance of the other vectors after the loop *)
+    assert (Hframe : forall d m, d <> vid -> adm_many c ww d (sink_count (KLazy n0 dst sk') d + m) ->
+                       ok = true -> adm_many c W' d (sink_count sk' d + m)).
+    { intros d m Hd Hm Hok. cbn [sink_count] in Hm. destruct (Nat.eqb_spec dst d) as [<-|Hdd].
+      - rewrite <- N.add_assoc in Hm.
+        assert (Hm' : adm_many c ww dst (n0 + sink_count sk' dst + m)) by (rewrite <- N.add_assoc; exact Hm).
+        destruct (Hloop m Hm') as (W2 & vd2 & HI2 & _ & _ & Hadm2 & Erun2).
+        cbn [fst snd] in Erun2, Hadm2, HI2. rewrite Hok in Erun, Erun2.
+        rewrite Erun in Erun2. injection Erun2 as <-.
+        pose proof (sp_lazy_pushes_ok c t _ _ _ _ _ _ (eq_trans Esp (f_equal _ Hok))) as Enx.
+        intros vx Hgx. rewrite (li_d _ _ _ _ _ _ _ _ HI2) in Hgx. injection Hgx as <-.
+        replace (sink_count sk' dst + m) with (n0 + sink_count sk' dst + m - (nx' - unext (wuw ww))) by lia.
+        exact Hadm2.
+      - rewrite N.add_0_l in Hm. intros vx Hgx. apply (Hm vx).
+        rewrite !get_vec_slot in *. rewrite <- (Ho' d Hd (fun X => Hdd (eq_sym X))). exact Hgx. }
+    destruct ok.
+    + (* all clones went in: the rest of the sink *)
+      rewrite (bind_ok _ _ _ _ _ (unwinding_okw _ _ _ _ _ Erun)).
+      assert (Hadm1 : forall d, d <> vid -> adm_many c W' d (sink_count sk' d)).
+      { intros d Hd. pose proof (Hframe d 0 Hd) as H. rewrite !N.add_0_r in H. apply H; [apply Hadm; exact Hd|reflexivity]. }
+      pose proof (IH W' st1 (evs ++ evs1) Hwk1 Hadm1) as Hrest. cbv zeta in Hrest. fold t in Hrest. rewrite Hnx' in Hrest.
+      destruct (sp_item c vid st1 nx' t sk') as [[[[[[out evs2] st2] lost2] nx2]|[[[p evs2] st2] nx2]]|]; [| |exact I].
+      * destruct Hrest as (ww2 & E2 & Hwk2 & Hnx2 & Hfr2). exists ww2. split; [exact E2|]. split; [rewrite app_assoc; exact Hwk2|].
+        split; [exact Hnx2|]. intros d m Hd Hm. apply (Hfr2 d m Hd). apply (Hframe d m Hd Hm eq_refl).
+      * destruct Hrest as (ww2 & E2 & Hwk2 & Hnx2). exists ww2. split; [exact E2|]. split; [rewrite app_assoc; exact Hwk2|exact Hnx2].
+    + (* a push was refused: the unwinding destroys the item *)
+      destruct (item_drop_quiet W' st1 (evs ++ evs1) idx Hwk1 Hsi Hie) as (ww2 & Eq & Hwk2). fold p0 in Eq. fold t in Hwk2.
+      exists ww2. split; [|split].
+      * unfold bind. unfold unwinding, on_unwind. rewrite Erun, Eq. reflexivity.
+      * rewrite app_assoc. apply (walkm_after W' st1 (evs ++ evs1) ww2 _ Hwk1 Hwk2).
+      * rewrite (wk_nx _ _ _ _ _ _ Hwk2). exact Hnx'.
+  - (* KLazyDown: lazy clones of the item are downcast first *)
+    cbn [sp_item]. fold t.
+    set (cnt := N.to_nat n0) in *.
+    pose proof (item_lazy_downs ww stw evs idx Hwk Hsi Hie cnt (wuw ww) (wm_fuse _ _ _ Hwk)) as Hld. fold p0 in Hld. fold t in Hld.
+    rewrite (put_vec_id vid vr ww (wm_vec _ _ _ Hwk)) in Hld.
+    destruct (lazy_uw_facts c t cnt (wuw ww)) as (Hn1 & Hf1 & He1).
+    set (u' := lazy_uw c t (wuw ww) cnt) in *.
+    set (W' := put_vec vid (Some vr) u' ww) in *.
+    set (cl := flat_map (fun id => EClone t id :: drop_ev c id) (next_ids c (unext (wuw ww)) cnt)) in *.
+    assert (Hwk1 : WalkM W' stw (evs ++ cl)).
+    { constructor.
+      - apply (wrep_put_same c ww stw vid vr hid u' (wm_rep _ _ _ Hwk) (wm_a _ _ _ Hwk)).
+        pose proof (wm_rep _ _ _ Hwk vid) as Hs. rewrite <- get_vec_slot, (wm_vec _ _ _ Hwk), <- get_a_slot, (wm_a _ _ _ Hwk) in Hs. exact Hs.
+      - unfold W'. rewrite wuw_put, Hn1. pose proof (wm_nx _ _ _ Hwk). lia.
+      - unfold W'. rewrite wuw_put, Hf1. exact (wm_fuse _ _ _ Hwk).
+      - unfold W'. rewrite wuw_put, He1, (wm_evs _ _ _ Hwk), rev_app_distr, app_assoc. reflexivity.
+      - apply get_vec_put_same.
+      - exact (wm_a _ _ _ Hwk). }
+    assert (Hnx1 : unext (wuw W') = unext (wuw ww) + n0) by (unfold W'; rewrite wuw_put, Hn1; unfold cnt; lia).
+    assert (Hoth : forall d, d <> vid -> get_vec d W' = get_vec d ww) by (intros d Hd; unfold W'; apply get_vec_put_other; exact Hd).
+    assert (Hadm1 : forall d, d <> vid -> adm_many c W' d (sink_count sk' d)).
+    { intros d Hd. apply (adm_many_same c ww W' d _ (Hoth d Hd)). apply (Hadm d Hd). }
+    pose proof (IH W' stw (evs ++ cl) Hwk1 Hadm1) as Hrest. cbv zeta in Hrest. fold t in Hrest. rewrite Hnx1 in Hrest.
+    assert (Hbody : item_sink c vid a p0 (KLazyDown n0 sk') ww
+                    = (do xs0 <- unwinding (lazy_downs c vid cnt (on_vec vid (read_ptr c p0))) (on_vec vid (elem_drop c p0));
+                       do r <- item_sink c vid a p0 sk'; ret (xs0 ++ r)) ww) by reflexivity.
+    rewrite Hbody. clear Hbody.
+    rewrite (bind_ok _ _ _ _ _ (unwinding_okw _ _ _ _ _ Hld)).
+    destruct (sp_item c vid stw (unext (wuw ww) + n0) t sk') as [[[[[[out evs2] st2] lost2] nx2]|[[[p evs2] st2] nx2]]|]; [| |exact I].
+    + destruct Hrest as (ww2 & E2 & Hwk2 & Hnx2 & Hfr2). exists ww2. split; [|split; [|split]].
+      * rewrite (bind_ok _ _ _ _ _ E2). reflexivity.
+      * rewrite app_assoc. exact Hwk2.
+      * exact Hnx2.
+      * intros d m Hd Hm. apply (Hfr2 d m Hd). apply (adm_many_same c ww W' d _ (Hoth d Hd)). exact Hm.
+    + destruct Hrest as (ww2 & E2 & Hwk2 & Hnx2). exists ww2. split; [|split].
+      * rewrite (bind_panic _ _ _ _ _ E2). reflexivity.
+      * rewrite app_assoc. exact Hwk2.
+      * exact Hnx2.
+  - (* KSkip *) cbn [sp_item]. destruct (Hsimple KSkip ww stw evs [] Hwk eq_refl) as (ww' & E & H1 & H2 & H3). exists ww'. auto.
 Qed.
 
 Lemma walk_mv_spec cleanup : forall pat i j ww stw evs,
   WalkM ww stw evs -> (s <= i)%nat -> (i <= j)%nat -> (j <= e)%nat -> adm_pat c ww vid pat ->
-  match sp_walk_mv c vid xs pat i j stw with
+  match sp_walk_mv c vid xs pat i j stw (unext (wuw ww)) with
   | None => True
-  | Some (WDone rets evs1 i' j' st' lost) =>
+  | Some (WDone rets evs1 i' j' st' lost nx') =>
       exists ww', walk c vid a cleanup pat {| ci := N.of_nat i; ce := N.of_nat j |} ww
                   = Ok (rets, {| ci := N.of_nat i'; ce := N.of_nat j' |}) ww' /\
-                  WalkM ww' st' (evs ++ evs1) /\ (i <= i')%nat /\ (i' <= j')%nat /\ (j' <= j)%nat
-  | Some (WStop p evs1 i' j' st' lost) =>
+                  WalkM ww' st' (evs ++ evs1) /\ unext (wuw ww') = nx' /\ (i <= i')%nat /\ (i' <= j')%nat /\ (j' <= j)%nat
+  | Some (WStop p evs1 i' j' st' lost nx') =>
       exists ww1, walk c vid a cleanup pat {| ci := N.of_nat i; ce := N.of_nat j |} ww
                   = unwound p (cleanup {| ci := N.of_nat i'; ce := N.of_nat j' |}) ww1 /\
-                  WalkM ww1 st' (evs ++ evs1) /\ (i <= i')%nat /\ (i' <= j')%nat /\ (j' <= j)%nat
+                  WalkM ww1 st' (evs ++ evs1) /\ unext (wuw ww1) = nx' /\ (i <= i')%nat /\ (i' <= j')%nat /\ (j' <= j)%nat
   end.
 Proof.
   induction pat as [|[front sk] pat IH]; intros i j ww stw evs Hwk Hsi Hij Hje Hadm; cbn [sp_walk_mv].
-  - exists ww. cbn [walk]. rewrite app_nil_r. split; [reflexivity|]. split; [exact Hwk|]. lia.
+  - exists ww. cbn [walk]. rewrite app_nil_r. split; [reflexivity|]. split; [exact Hwk|]. split; [reflexivity|lia].
   - destruct (Nat.eqb_spec i j) as [Heq|Hne].
     + (* exhausted *)
       assert (Hk : (if front then cur_next {| ci := N.of_nat i; ce := N.of_nat j |}
@@ -346,7 +512,7 @@ Proof.
       assert (Hadm' : adm_pat c ww vid pat).
       { intros d Hd. apply (adm_many_le c ww d (pat_count ((front, sk) :: pat) d)); [cbn [pat_count]; lia|apply Hadm; exact Hd]. }
       specialize (IH i j ww stw evs Hwk Hsi Hij Hje Hadm').
-      destruct (sp_walk_mv c vid xs pat i j stw) as [[rets0 evs0 i0 j0 st0 lost0|p0 evs0 i0 j0 st0 lost0]|]; [| |exact I].
+      destruct (sp_walk_mv c vid xs pat i j stw (unext (wuw ww))) as [[rets0 evs0 i0 j0 st0 lost0 nx0|p0 evs0 i0 j0 st0 lost0 nx0]|]; [| |exact I].
       * destruct IH as (ww' & E & Hwk' & Hb). exists ww'. split; [|split; [exact Hwk'|exact Hb]].
         rewrite (bind_ok _ _ _ _ _ E). unfold ret. cbn [fst snd]. rewrite cur_len_nat. reflexivity.
       * destruct IH as (ww1 & E & Hwk' & Hb). exists ww1. split; [|split; [exact Hwk'|exact Hb]].
@@ -375,38 +541,30 @@ Proof.
       rewrite Hwalk. clear Hwalk.
       assert (Hadm0 : forall d, d <> vid -> adm_many c ww d (sink_count sk d)).
       { intros d Hd. apply (adm_many_le c ww d (pat_count ((front, sk) :: pat) d)); [cbn [pat_count]; lia|apply Hadm; exact Hd]. }
-      pose proof (item_mv_spec ww stw evs idx sk Hwk (proj1 Hidx) (proj2 Hidx) Hadm0) as Hitem. cbv zeta in Hitem. fold t in Hitem.
-      destruct (sp_item c vid stw t sk) as [[[[[out evs0] st1] lost0]|[p evs0]]|] eqn:Eit; [| |exact I].
-      * destruct Hitem as (ww2 & E2 & Hwk2 & Hsame).
+      pose proof (item_mv_spec idx (proj1 Hidx) (proj2 Hidx) sk ww stw evs Hwk Hadm0) as Hitem. cbv zeta in Hitem. fold t in Hitem.
+      destruct (sp_item c vid stw (unext (wuw ww)) t sk) as [[[[[[out evs0] st1] lost0] nx1]|[[[p evs0] st1] nx1]]|] eqn:Eit; [| |exact I].
+      * destruct Hitem as (ww2 & E2 & Hwk2 & Hnx2 & Hframe).
         rewrite (bind_ok _ _ _ _ _ (unwinding_okw _ _ _ _ _ E2)).
         assert (Hadm2 : adm_pat c ww2 vid pat).
-        { apply (adm_pat_tail ww ww2 front sk pat Hadm Hsame).
-          intros d dv Hd Hnz Hgd.
-          destruct (sp_item_moved c vid stw t sk out evs0 st1 lost0 d Eit Hnz) as (b & ys' & Hgb & -> & Hlen & H1).
-          destruct (wrep_get c ww stw d b (so_rep _ _ _ _ _ _ (wm_ok _ _ _ Hwk)) Hgb) as (dv0 & Hg0 & HV0).
-          destruct (wrep_get c ww2 _ d _ (so_rep _ _ _ _ _ _ (wm_ok _ _ _ Hwk2)) (get_a_set_same d _ stw)) as (dv2 & Hg2 & HV2).
-          rewrite Hgd in Hg2. injection Hg2 as <-.
-          exists dv0, ys'. split; [exact Hg0|].
-          pose proof (rep_len _ _ _ (vi_rep _ _ _ HV0)) as L0. pose proof (rep_len _ _ _ (vi_rep _ _ _ HV2)) as L2.
-          cbn [with_xs a_xs] in L2.
-          split; [rewrite L2, L0, Hlen; lia|].
-          split; [rewrite (vi_bk _ _ _ HV2), (vi_bk _ _ _ HV0); reflexivity|].
-          split; [exact (vi_rep _ _ _ HV2)|exact H1]. }
+        { intros d Hd. apply (Hframe d (pat_count pat d) Hd). apply (Hadm d Hd). }
         destruct Hb1 as (Hb1a & Hb1b & Hb1c).
-        specialize (IH i1 j1 ww2 st1 (evs ++ evs0) Hwk2 Hb1a Hb1b Hb1c Hadm2).
-        destruct (sp_walk_mv c vid xs pat i1 j1 st1) as [[rets0 evs1 i0 j0 st0 lost1|p0 evs1 i0 j0 st0 lost1]|]; [| |exact I].
-        -- destruct IH as (ww' & E & Hwk' & Hb). exists ww'. split; [|split].
+        specialize (IH i1 j1 ww2 st1 (evs ++ evs0) Hwk2 Hb1a Hb1b Hb1c Hadm2). rewrite Hnx2 in IH.
+        destruct (sp_walk_mv c vid xs pat i1 j1 st1 nx1) as [[rets0 evs1 i0 j0 st0 lost1 nx0|p0 evs1 i0 j0 st0 lost1 nx0]|]; [| |exact I].
+        -- destruct IH as (ww' & E & Hwk' & Hnx' & Hb). exists ww'. split; [|split; [|split]].
            ++ rewrite (bind_ok _ _ _ _ _ E). unfold ret. cbn [fst snd]. rewrite cur_len_nat. reflexivity.
            ++ rewrite app_assoc. exact Hwk'.
+           ++ exact Hnx'.
            ++ unfold i1, j1 in Hb. destruct front; lia.
-        -- destruct IH as (ww1 & E & Hwk' & Hb). exists ww1. split; [|split].
+        -- destruct IH as (ww1 & E & Hwk' & Hnx' & Hb). exists ww1. split; [|split; [|split]].
            ++ apply bind_unwound. exact E.
            ++ rewrite app_assoc. exact Hwk'.
+           ++ exact Hnx'.
            ++ unfold i1, j1 in Hb. destruct front; lia.
-      * destruct Hitem as (ww2 & E2 & Hwk2).
-        exists ww2. split; [|split].
+      * destruct Hitem as (ww2 & E2 & Hwk2 & Hnx2).
+        exists ww2. split; [|split; [|split]].
         -- apply bind_unwound. apply unwinding_panic. exact E2.
         -- exact Hwk2.
+        -- exact Hnx2.
         -- unfold i1, j1. destruct front; lia.
 Qed.
 End DrainMv.
@@ -444,12 +602,11 @@ Proof.
     assert (Hw1 : w1 = w) by (apply put_vec_id; exact Hgv).
     assert (Hwk0 : WalkM c w vid av vv s w2 hidden []).
     { constructor.
-      - constructor.
-        + unfold w2, hidden. apply wrep_put; [rewrite Hw1; exact HW|].
-          apply (vi_prefix c vv av s HV). fold xs. lia.
-        + unfold w2. rewrite wuw_put. unfold w1. rewrite wuw_put. lia.
-        + exact Hfuse.
-        + reflexivity.
+      - unfold w2, hidden. apply wrep_put; [rewrite Hw1; exact HW|].
+        apply (vi_prefix c vv av s HV). fold xs. lia.
+      - unfold w2. rewrite wuw_put. unfold w1. rewrite wuw_put. lia.
+      - exact Hfuse.
+      - reflexivity.
       - apply get_vec_put_same.
       - apply get_a_set_same. }
     assert (Hadm2 : adm_pat c w2 vid pat).
@@ -458,13 +615,14 @@ Proof.
     set (finish := fun k : cursor => on_vec vid (drain_drop c (known_of a) (with_cur k d))).
     pose proof (walk_mv_spec c w vid av vv s e a Hwf HV Hse' Hel' finish pat s e w2 hidden [] Hwk0 (le_n s) Hse' (le_n e) Hadm2) as Hwalk.
     fold xs in Hwalk. cbn [app] in Hwalk.
+    assert (Hnx2 : unext (wuw w2) = unext (wuw w)) by reflexivity. rewrite Hnx2 in Hwalk.
     assert (Hcl : cur_len (dcur d) = N.of_nat (e - s)) by (unfold d, cur_len; cbn [dcur ci ce]; lia).
     (* the iterator dropped with the cursor at [i', j'), in a world of the walk *)
     assert (Hfinish : forall ww st' evs i' j', WalkM c w vid av vv s ww st' evs -> (s <= i')%nat -> (i' <= j')%nat -> (j' <= e)%nat ->
               exists w', finish {| ci := N.of_nat i'; ce := N.of_nat j' |} ww = Ok tt w' /\
                 step_ok c w w' (set_a vid (Some (with_xs av (VecSpec.sp_drain s e xs))) st')
-                        (evs ++ (if c_dg c then map EDrop (firstn (j' - i') (skipn i' xs)) else [])) 0).
-    { intros ww st' evs i' j' [[HRw Hnw Hfw Hew] Hvw Haw] Hb1 Hb2 Hb3.
+                        (evs ++ (if c_dg c then map EDrop (firstn (j' - i') (skipn i' xs)) else [])) (unext (wuw ww) - unext (wuw w))).
+    { intros ww st' evs i' j' [HRw Hnw Hfw Hew Hvw Haw] Hb1 Hb2 Hb3.
       pose proof (range_alive_any c vv xs s e i' j' HR Hb1 Hb2 Hb3 Hel') as HA. fold vr in HA.
       destruct (drain_drop_spec c vr (wuw ww) xs s e i' j' (known_of a) HA Hfw)
         as (v' & u' & Ed & HR' & Hc' & Hb' & Hn' & Hf' & Hl').
@@ -479,25 +637,26 @@ Proof.
         + rewrite wuw_put. exact Hf'.
         + rewrite wuw_put. unfold uevents at 1. rewrite Hl', uevents_drops. fold (uevents (wuw ww)). rewrite Hew.
           rewrite rev_app_distr. destruct (c_dg c); cbn [rev app]; rewrite <- ?app_assoc; reflexivity. }
-    destruct (sp_walk_mv c vid xs pat s e hidden) as [[rets evs1 i' j' st' lost|p evs1 i' j' st' lost]|]; [| |discriminate].
-    + destruct Hwalk as (ww' & Ew & Hwk & Hb1 & Hb2 & Hb3).
+    destruct (sp_walk_mv c vid xs pat s e hidden (unext (wuw w))) as [[rets evs1 i' j' st' lost nx'|p evs1 i' j' st' lost nx']|]; [| |discriminate].
+    + destruct Hwalk as (ww' & Ew & Hwk & Hnx' & Hb1 & Hb2 & Hb3).
       rewrite (bind_ok _ _ _ _ _ Ew). cbn [fst snd].
       destruct f; injection Hr as <-.
       * destruct (Hfinish ww' st' evs1 i' j' Hwk Hb1 Hb2 Hb3) as (w' & Efin & Hok).
         rewrite (bind_ok _ _ _ _ _ Efin). unfold ret. rewrite Hcl.
         cbn [res_matches ok_res s_out s_pk s_ret s_st s_evs s_nx].
-        split; [reflexivity|split; [reflexivity|split; [reflexivity|]]]. rewrite N.sub_diag. exact Hok.
+        split; [reflexivity|split; [reflexivity|split; [reflexivity|]]]. rewrite <- Hnx'. exact Hok.
       * unfold ret, bind. rewrite Hcl.
         cbn [res_matches ok_res s_out s_pk s_ret s_st s_evs s_nx].
-        split; [reflexivity|split; [reflexivity|split; [reflexivity|]]]. rewrite N.sub_diag. exact (wm_ok _ _ _ _ _ _ _ _ _ Hwk).
-    + destruct Hwalk as (ww1 & Ew & Hwk & Hb1 & Hb2 & Hb3).
+        split; [reflexivity|split; [reflexivity|split; [reflexivity|]]].
+        destruct Hwk as [HRw Hnw Hfw Hew Hvw Haw]. constructor; auto. lia.
+    + destruct Hwalk as (ww1 & Ew & Hwk & Hnx' & Hb1 & Hb2 & Hb3).
       injection Hr as <-.
       destruct (Hfinish ww1 st' evs1 i' j' Hwk Hb1 Hb2 Hb3) as (w' & Efin & Hok).
       assert (Equiet : quiet (finish {| ci := N.of_nat i'; ce := N.of_nat j' |}) ww1 = Ok tt w').
-      { apply quiet_none; [apply (so_fuse _ _ _ _ _ _ (wm_ok _ _ _ _ _ _ _ _ _ Hwk))|exact Efin|apply (so_fuse _ _ _ _ _ _ Hok)]. }
+      { apply quiet_none; [apply (wm_fuse _ _ _ _ _ _ _ _ _ Hwk)|exact Efin|apply (so_fuse _ _ _ _ _ _ Hok)]. }
       rewrite (bind_unwound _ _ _ _ _ _ Ew). unfold unwound. rewrite Equiet.
       cbn [res_matches panic_res s_out s_pk s_ret s_st s_evs s_nx].
-      split; [reflexivity|split; [reflexivity|split; [reflexivity|]]]. rewrite N.sub_diag. exact Hok.
+      split; [reflexivity|split; [reflexivity|split; [reflexivity|]]]. rewrite <- Hnx'. exact Hok.
   - (* invalid range: panics before anything changes *)
     injection Hr as <-.
     pose proof (into_range_panic _ sb eb (vv, wuw w) Erb) as Ep.
@@ -526,11 +685,13 @@ Lemma splice_finish c w0 vid av vv s e (a : api) ts k claimed i' j' ww st' evs :
   let items := map (fun t => honest_item c t k) ts in
   let finish := on_vec vid (splice_drop c (known_of a) (with_cur {| ci := N.of_nat i'; ce := N.of_nat j' |} d) claimed items) in
   match sp_splice_fin c av s e i' j' ts claimed (N.of_nat (length ts)) with
-  | inl p => exists w', finish ww = Panic p w' /\ step_ok c w0 w' st' (evs ++ (if c_dg c then map EDrop ts else [])) 0
-  | inr (fevs, ys) => exists w', finish ww = Ok tt w' /\ step_ok c w0 w' (set_a vid (Some (with_xs av ys)) st') (evs ++ fevs) 0
+  | inl p => exists w', finish ww = Panic p w' /\
+               step_ok c w0 w' st' (evs ++ (if c_dg c then map EDrop ts else [])) (unext (wuw ww) - unext (wuw w0))
+  | inr (fevs, ys) => exists w', finish ww = Ok tt w' /\
+               step_ok c w0 w' (set_a vid (Some (with_xs av ys)) st') (evs ++ fevs) (unext (wuw ww) - unext (wuw w0))
   end.
 Proof.
-  intros Hwf HV Hse' Hel' [[HRw Hnw Hfw Hew] Hvw Haw] Hb1 Hb2 Hb3 Htoks Hadm xs d items finish.
+  intros Hwf HV Hse' Hel' [HRw Hnw Hfw Hew Hvw Haw] Hb1 Hb2 Hb3 Htoks Hadm xs d items finish.
   pose proof (vi_rep _ _ _ HV) as HR. fold xs in Hel', Hadm.
   set (vr := with_len (N.of_nat s) vv) in *.
   set (cl := N.to_nat claimed).
@@ -541,7 +702,8 @@ Proof.
   rewrite Hnl.
   assert (Hpanic : forall p, splice_prep c (known_of a) (with_cur {| ci := N.of_nat i'; ce := N.of_nat j' |} d) (N.of_nat cl) (vr, wuw ww)
                              = Panic p (vr, wuw ww) ->
-            exists w', finish ww = Panic p w' /\ step_ok c w0 w' st' (evs ++ (if c_dg c then map EDrop ts else [])) 0).
+            exists w', finish ww = Panic p w' /\
+              step_ok c w0 w' st' (evs ++ (if c_dg c then map EDrop ts else [])) (unext (wuw ww) - unext (wuw w0))).
   { intros p Hprep.
     destruct (splice_drop_prep_panic c vr (wuw ww) (known_of a) _ ts k p _ Hfw Hprep) as (u' & Ed & Hn' & Hf' & He').
     exists (put_vec vid (Some vr) u' ww). split.
@@ -619,8 +781,8 @@ Proof.
   cbn [exec]. rewrite (bind_ok _ _ _ _ _ (peek_vec_ok vid w vv Hgv)).
   rewrite (bind_ok _ _ _ _ _ (make_items_honest c rk Hrk nn 0 w)). fold ts items w0.
   rewrite Hlen.
-  assert (Hstep : forall w' st' evs, step_ok c w0 w' st' evs 0 -> step_ok c w w' st' evs (unext (wuw w) + n - unext (wuw w))).
-  { intros w' st' evs [R Nx F E]. constructor; auto; try (rewrite Nx, Hnx0; lia); try (rewrite E, Hev0; reflexivity). }
+  assert (Hstep : forall w' st' evs d, step_ok c w0 w' st' evs d -> step_ok c w w' st' evs (unext (wuw w) + n + d - unext (wuw w))).
+  { intros w' st' evs d [R Nx F E]. constructor; auto; try (rewrite Nx, Hnx0; lia); try (rewrite E, Hev0; reflexivity). }
   destruct (range_of_bounds usize_max (N.of_nat (length xs)) (to_sb sb) (to_sb eb)) as [[sN eN]|] eqn:Erb.
   - destruct (into_range_ok _ sb eb (vv, wuw w0) sN eN Erb) as (Eir & Hse & Hel).
     set (s := N.to_nat sN) in *. set (e := N.to_nat eN) in *.
@@ -642,12 +804,11 @@ Proof.
     assert (Hw1 : w1 = w0) by (apply put_vec_id; exact Hgv0).
     assert (Hwk0 : WalkM c w0 vid av vv s w2 hidden []).
     { constructor.
-      - constructor.
-        + unfold w2, hidden. apply wrep_put; [rewrite Hw1; exact HW0|].
-          apply (vi_prefix c vv av s HV). fold xs. lia.
-        + unfold w2. rewrite wuw_put. unfold w1. rewrite wuw_put. lia.
-        + exact Hfuse0.
-        + reflexivity.
+      - unfold w2, hidden. apply wrep_put; [rewrite Hw1; exact HW0|].
+        apply (vi_prefix c vv av s HV). fold xs. lia.
+      - unfold w2. rewrite wuw_put. unfold w1. rewrite wuw_put. lia.
+      - exact Hfuse0.
+      - reflexivity.
       - apply get_vec_put_same.
       - apply get_a_set_same. }
     assert (Hadm2 : adm_pat c w2 vid pat).
@@ -656,6 +817,7 @@ Proof.
     set (finish := fun k : cursor => on_vec vid (splice_drop c (known_of a) (with_cur k d) claimed items)).
     pose proof (walk_mv_spec c w0 vid av vv s e a Hwf HV Hse' Hel' finish pat s e w2 hidden [] Hwk0 (le_n s) Hse' (le_n e) Hadm2) as Hwalk.
     fold xs in Hwalk. cbn [app] in Hwalk.
+    assert (Hnx2 : unext (wuw w2) = unext (wuw w) + n) by exact Hnx0. rewrite Hnx2 in Hwalk.
     assert (Hcl : cur_len (dcur d) = N.of_nat (e - s)) by (unfold d, cur_len; cbn [dcur ci ce]; lia).
     assert (Hadm' : let nl := N.of_nat s + claimed + (N.of_nat (length (a_xs av)) - N.of_nat e) in
                     nl <= vcap vv \/ fixed_backend (vbk vv) \/ usize_max < nl \/ grow_ok c vv nl).
@@ -663,39 +825,46 @@ Proof.
     assert (Hfinish : forall ww st' evs i' j', WalkM c w0 vid av vv s ww st' evs -> (s <= i')%nat -> (i' <= j')%nat -> (j' <= e)%nat ->
               match sp_splice_fin c av s e i' j' ts claimed n with
               | inl p => exists w', finish {| ci := N.of_nat i'; ce := N.of_nat j' |} ww = Panic p w' /\
-                           step_ok c w0 w' st' (evs ++ (if c_dg c then map EDrop ts else [])) 0
+                           step_ok c w w' st' (evs ++ (if c_dg c then map EDrop ts else [])) (unext (wuw ww) - unext (wuw w))
               | inr (fevs, ys) => exists w', finish {| ci := N.of_nat i'; ce := N.of_nat j' |} ww = Ok tt w' /\
-                           step_ok c w0 w' (set_a vid (Some (with_xs av ys)) st') (evs ++ fevs) 0
+                           step_ok c w w' (set_a vid (Some (with_xs av ys)) st') (evs ++ fevs) (unext (wuw ww) - unext (wuw w))
               end).
     { intros ww st' evs i' j' Hwk Hb1 Hb2 Hb3. rewrite Hn.
-      exact (splice_finish c w0 vid av vv s e a ts (rk_flag rk) claimed i' j' ww st' evs Hwf HV Hse' Hel' Hwk Hb1 Hb2 Hb3
-               (next_ids_tok_ok _ _ _) Hadm'). }
-    destruct (sp_walk_mv c vid xs pat s e hidden) as [[rets evs1 i' j' st' lost|p evs1 i' j' st' lost]|]; [| |discriminate].
-    + destruct Hwalk as (ww' & Ew & Hwk & Hb1 & Hb2 & Hb3).
+      pose proof (splice_finish c w0 vid av vv s e a ts (rk_flag rk) claimed i' j' ww st' evs Hwf HV Hse' Hel' Hwk Hb1 Hb2 Hb3
+               (next_ids_tok_ok _ _ _) Hadm') as H. cbv zeta in H.
+      pose proof (wm_nx _ _ _ _ _ _ _ _ _ Hwk) as Hge.
+      destruct (sp_splice_fin c av s e i' j' ts claimed (N.of_nat (length ts))) as [p|[fevs ys]];
+        destruct H as (w' & E & Hok); exists w'; (split; [exact E|]);
+        apply Hstep in Hok;
+        replace (unext (wuw ww) - unext (wuw w)) with (unext (wuw w) + n + (unext (wuw ww) - unext (wuw w0)) - unext (wuw w)) by lia;
+        exact Hok. }
+    destruct (sp_walk_mv c vid xs pat s e hidden (unext (wuw w) + n)) as [[rets evs1 i' j' st' lost nx'|p evs1 i' j' st' lost nx']|]; [| |discriminate].
+    + destruct Hwalk as (ww' & Ew & Hwk & Hnx' & Hb1 & Hb2 & Hb3).
       rewrite (bind_ok _ _ _ _ _ Ew). cbn [fst snd].
-      specialize (Hfinish ww' st' evs1 i' j' Hwk Hb1 Hb2 Hb3).
+      specialize (Hfinish ww' st' evs1 i' j' Hwk Hb1 Hb2 Hb3). rewrite Hnx' in Hfinish.
       destruct f.
       * destruct (sp_splice_fin c av s e i' j' ts claimed n) as [p|[fevs ys]]; injection Hr as <-.
         -- destruct Hfinish as (w' & Efin & Hok).
            rewrite (bind_panic _ _ _ _ _ Efin).
            cbn [res_matches panic_res s_out s_pk s_ret s_st s_evs s_nx].
-           split; [reflexivity|split; [reflexivity|split; [reflexivity|]]]. apply Hstep. exact Hok.
+           split; [reflexivity|split; [reflexivity|split; [reflexivity|]]]. exact Hok.
         -- destruct Hfinish as (w' & Efin & Hok).
            rewrite (bind_ok _ _ _ _ _ Efin). unfold ret. rewrite Hcl.
            cbn [res_matches ok_res s_out s_pk s_ret s_st s_evs s_nx].
-           split; [reflexivity|split; [reflexivity|split; [reflexivity|]]]. apply Hstep. exact Hok.
+           split; [reflexivity|split; [reflexivity|split; [reflexivity|]]]. exact Hok.
       * injection Hr as <-. unfold ret, bind. rewrite Hcl.
         cbn [res_matches ok_res s_out s_pk s_ret s_st s_evs s_nx].
-        split; [reflexivity|split; [reflexivity|split; [reflexivity|]]]. apply Hstep. exact (wm_ok _ _ _ _ _ _ _ _ _ Hwk).
-    + destruct Hwalk as (ww1 & Ew & Hwk & Hb1 & Hb2 & Hb3).
-      specialize (Hfinish ww1 st' evs1 i' j' Hwk Hb1 Hb2 Hb3).
+        split; [reflexivity|split; [reflexivity|split; [reflexivity|]]].
+        destruct Hwk as [HRw Hnw Hfw Hew Hvw Haw]. constructor; [exact HRw|lia|exact Hfw|rewrite Hew, Hev0; reflexivity].
+    + destruct Hwalk as (ww1 & Ew & Hwk & Hnx' & Hb1 & Hb2 & Hb3).
+      specialize (Hfinish ww1 st' evs1 i' j' Hwk Hb1 Hb2 Hb3). rewrite Hnx' in Hfinish.
       destruct (sp_splice_fin c av s e i' j' ts claimed n) as [p'|[fevs ys]]; [discriminate|]. injection Hr as <-.
       destruct Hfinish as (w' & Efin & Hok).
       assert (Equiet : quiet (finish {| ci := N.of_nat i'; ce := N.of_nat j' |}) ww1 = Ok tt w').
-      { apply quiet_none; [apply (so_fuse _ _ _ _ _ _ (wm_ok _ _ _ _ _ _ _ _ _ Hwk))|exact Efin|apply (so_fuse _ _ _ _ _ _ Hok)]. }
+      { apply quiet_none; [apply (wm_fuse _ _ _ _ _ _ _ _ _ Hwk)|exact Efin|apply (so_fuse _ _ _ _ _ _ Hok)]. }
       rewrite (bind_unwound _ _ _ _ _ _ Ew). unfold unwound. rewrite Equiet.
       cbn [res_matches panic_res s_out s_pk s_ret s_st s_evs s_nx].
-      split; [reflexivity|split; [reflexivity|split; [reflexivity|]]]. apply Hstep. exact Hok.
+      split; [reflexivity|split; [reflexivity|split; [reflexivity|]]]. exact Hok.
   - (* invalid range: panics before the vector is touched; the replacement values are destroyed *)
     injection Hr as <-.
     pose proof (into_range_panic _ sb eb (vv, wuw w0) Erb) as Ep.
@@ -711,6 +880,7 @@ Proof.
     rewrite (bind_panic _ _ _ _ _ Eu).
     cbn [res_matches panic_res s_out s_pk s_ret s_st s_evs s_nx].
     split; [reflexivity|split; [reflexivity|split; [reflexivity|]]].
+    replace (unext (wuw w) + n - unext (wuw w)) with (unext (wuw w) + n + 0 - unext (wuw w)) by lia.
     apply Hstep. constructor.
     + apply (wrep_put_same c w1 st vid vv av); [|assumption|assumption].
       apply (wrep_put_same c w0 st vid vv av); assumption.
